@@ -63,6 +63,7 @@ def _canonical_names(f):
     text = f.args.args[0].arg
     ren = {text: 'text'}
     size = pos = char = None
+    size_top = False
     for st in walk_no_nested(f):
         if isinstance(st, ast.Assign) and len(st.targets) == 1 and isinstance(
                 st.targets[0], ast.Name):
@@ -71,7 +72,16 @@ def _canonical_names(f):
                     v.func, ast.Name) and v.func.id == 'len' and len(
                         v.args) == 1 and isinstance(
                             v.args[0], ast.Name) and v.args[0].id == text:
-                size = size or st.targets[0].id
+                # the length taken at the top of the function; later
+                # "n = len(text)" in nested blocks are aliases of it
+                if st in f.body or size is None:
+                    if st in f.body and size is not None and \
+                            size_top:
+                        pass
+                    elif st in f.body:
+                        size, size_top = st.targets[0].id, True
+                    else:
+                        size = st.targets[0].id
             if isinstance(v, ast.Subscript) and isinstance(
                     v.value, ast.Name) and v.value.id == text and isinstance(
                         v.slice, ast.Name) and char is None:
@@ -742,6 +752,161 @@ def _rewrite_find_jump(body, i, q, leave):
     body[i:i + 3] = new
 
 
+# ------------------------------ I4: find loop with a cursor of its own
+def _match_find_loop(body, i):
+    """body[i:] ==  c = pos ; [n = len(text)] ; while True: (c = find(Q, c)
+    + 1 ; if c == 0: E = -1; break ; if <Q is not '"' or c at the end or
+    text[c] is not '"'>: E = c; break ; c += 1) ; if E < 0: <leave> ;
+    X = ..text[pos - 1:E].. ; pos = E
+    -> dict of the slots, or None."""
+    def is_assign(st, name=None):
+        return isinstance(st, ast.Assign) and len(
+            st.targets) == 1 and isinstance(st.targets[0], ast.Name) and (
+                name is None or st.targets[0].id == name)
+
+    j = i
+    if j >= len(body) or not (is_assign(body[j]) and isinstance(
+            body[j].value, ast.Name) and body[j].value.id == 'pos'):
+        return None
+    c = body[j].targets[0].id
+    j += 1
+    sizes = {'size'}
+    while j < len(body) and is_assign(body[j]) and unparse(
+            body[j].value) == 'len(text)':
+        sizes.add(body[j].targets[0].id)
+        j += 1
+    if j >= len(body):
+        return None
+    loop = body[j]
+    if not (isinstance(loop, ast.While) and isinstance(
+            loop.test, ast.Constant) and loop.test.value is True
+            and len(loop.body) == 4 and not loop.orelse):
+        return None
+    b0, b1, b2, b3 = loop.body
+    # b0: c = text.find(Q, c) + 1
+    if not (is_assign(b0, c) and isinstance(b0.value, ast.BinOp)
+            and isinstance(b0.value.op, ast.Add)):
+        return None
+    fc, one = b0.value.left, b0.value.right
+    if isinstance(fc, ast.Constant):
+        fc, one = one, fc
+    if not (isinstance(one, ast.Constant) and one.value == 1 and isinstance(
+            fc, ast.Call) and isinstance(fc.func, ast.Attribute)
+            and fc.func.attr == 'find' and unparse(fc.func.value) == 'text'
+            and len(fc.args) == 2 and unparse(fc.args[1]) == c
+            and not fc.keywords):
+        return None
+    q = fc.args[0]
+    if not (isinstance(q, ast.Name) and q.id == 'char'):
+        return None
+    # b1: if c == 0: E = -1; break
+    if not (isinstance(b1, ast.If) and not b1.orelse and unparse(
+            b1.test).replace(' ', '') in (f'{c}==0', f'{c}<1', f'{c}<=0')
+            and len(b1.body) == 2 and is_assign(b1.body[0])
+            and unparse(b1.body[0].value) == '-1'
+            and isinstance(b1.body[1], ast.Break)):
+        return None
+    e = b1.body[0].targets[0].id
+    # b2: if Q != '"' or c >= n or text[c] != '"': E = c; break
+    if not (isinstance(b2, ast.If) and not b2.orelse and isinstance(
+            b2.test, ast.BoolOp) and isinstance(b2.test.op, ast.Or)
+            and len(b2.body) == 2 and is_assign(b2.body[0], e)
+            and unparse(b2.body[0].value) == c
+            and isinstance(b2.body[1], ast.Break)):
+        return None
+    got = set()
+    for v in b2.test.values:
+        t = unparse(v).replace(' ', '')
+        if t in ("char!='\"'", "'\"'!=char"):
+            got.add('q')
+        elif any(t in (f'{c}>={n}', f'{n}<={c}') for n in sizes):
+            got.add('eof')
+        elif t in (f"text[{c}]!='\"'", f"'\"'!=text[{c}]"):
+            got.add('la')
+        else:
+            return None
+    if got != {'q', 'eof', 'la'} or len(b2.test.values) != 3:
+        return None
+    # the "at the end" test must come before the look-ahead
+    order = [unparse(v).replace(' ', '') for v in b2.test.values]
+    if [k for k in order if k.startswith('text[')] and order.index(
+            [k for k in order if k.startswith('text[')][0]) < min(
+                idx for idx, k in enumerate(order)
+                if k.startswith((c + '>=',)) or k.endswith('<=' + c)):
+        return None
+    # b3: c += 1
+    if not (isinstance(b3, ast.AugAssign) and isinstance(b3.op, ast.Add)
+            and unparse(b3.target) == c and unparse(b3.value) == '1'):
+        return None
+    j += 1
+    # if E < 0: <leave>
+    if j >= len(body) or not (isinstance(body[j], ast.If) and not body[
+            j].orelse and unparse(body[j].test).replace(' ', '') in (
+                f'{e}<0', f'{e}==-1') and isinstance(
+                    body[j].body[-1], (ast.Return, ast.Raise))):
+        return None
+    leave = body[j].body
+    j += 1
+    # X = .. text[pos - 1:E] ..
+    if j >= len(body) or not isinstance(body[j], ast.Assign):
+        return None
+    sl = [x for x in ast.walk(body[j].value) if isinstance(x, ast.Subscript)
+          and unparse(x.value) == 'text' and isinstance(x.slice, ast.Slice)]
+    if len(sl) != 1 or unparse(sl[0].slice.lower).replace(
+            ' ', '') != 'pos-1' or unparse(sl[0].slice.upper) != e:
+        return None
+    lex_stmt, lex_slice = body[j], sl[0]
+    j += 1
+    if j >= len(body) or not (is_assign(body[j], 'pos') and unparse(
+            body[j].value) == e):
+        return None
+    j += 1
+    # the private cursor and the end are not used afterwards
+    for st_ in body[j:]:
+        if any(isinstance(x, ast.Name) and x.id in (c, e)
+               for x in ast.walk(st_)):
+            return None
+    return {'start': i, 'stop': j, 'leave': leave, 'lex_stmt': lex_stmt,
+            'lex_slice': lex_slice}
+
+
+def _rewrite_find_loop(body, mt):
+    new = _parse(
+        'first_char = char\n'
+        '__span_buf = [char]\n'
+        'while True:\n'
+        '    if pos >= size:\n'
+        '        pass\n'
+        '    char = text[pos]\n'
+        '    pos += 1\n'
+        '    __span_buf.append(char)\n'
+        '    if char == first_char:\n'
+        "        if char == '\"' and pos < size and text[pos] == '\"':\n"
+        '            __span_buf.append(text[pos])\n'
+        '            pos += 1\n'
+        '            continue\n'
+        '        break\n')
+    new[2].body[0].body = [clone(x) for x in mt['leave']]
+    lex = clone(mt['lex_stmt'])
+    join = _parse("x = ''.join(__span_buf)")[0].value
+    for x in ast.walk(lex):
+        for fld, val in list(ast.iter_fields(x)):
+            if isinstance(val, ast.Subscript) and unparse(
+                    val) == unparse(mt['lex_slice']):
+                setattr(x, fld, join)
+            elif isinstance(val, list):
+                for k, y in enumerate(val):
+                    if isinstance(y, ast.Subscript) and unparse(
+                            y) == unparse(mt['lex_slice']):
+                        val[k] = join
+    if isinstance(lex.value, ast.Subscript) and unparse(
+            lex.value) == unparse(mt['lex_slice']):
+        lex.value = join
+    new.append(lex)
+    _copy_loc(new, body[mt['start']])
+    body[mt['start']:mt['stop']] = new
+
+
 # ------------------------------------------------- span -> buffer conversion
 def _convert_spans(f, verdicts):
     """``S = pos - 1 ... text[S:pos]``: the lexeme is everything the cursor
@@ -975,6 +1140,26 @@ def normalised_scanner(m, fname='parse_smtlib'):
     while _sink_shared_tail(f, notes):
         pass
     _lower_ifexp_assign(f)
+    # literal scan by a find loop with a cursor of its own (before the
+    # nested finds are hoisted, which would split its first statement)
+    again = True
+    while again:
+        again = False
+        for body in _blocks(f):
+            for i, st in enumerate(body):
+                mt = _match_find_loop(body, i)
+                if mt is not None:
+                    _rewrite_find_loop(body, mt)
+                    notes.append('literal scan by a find loop with a cursor '
+                                 'of its own rewritten to a character loop '
+                                 f'(line {st.lineno}): str.find returns the '
+                                 'first index >= the cursor, i.e. where the '
+                                 'character loop stops; "not found" is the '
+                                 'end-of-text exit')
+                    again = True
+                    break
+            if again:
+                break
     # "end = text.find(c, pos) + 1" -> "end = text.find(c, pos); end = end + 1"
     for body in _blocks(f):
         i_ = 0
@@ -1017,6 +1202,17 @@ def normalised_scanner(m, fname='parse_smtlib'):
             raise AnalysisError('scanner normalisation does not converge')
         for body in _blocks(f):
             for i, st in enumerate(body):
+                mt = _match_find_loop(body, i)
+                if mt is not None:
+                    _rewrite_find_loop(body, mt)
+                    notes.append('literal scan by a find loop with a cursor '
+                                 'of its own rewritten to a character loop '
+                                 f'(line {st.lineno}): str.find returns the '
+                                 'first index >= the cursor, i.e. where the '
+                                 'character loop stops; "not found" is the '
+                                 'end-of-text exit')
+                    changed = True
+                    break
                 if isinstance(st, ast.While) and _reads_text_at_pos(
                         st.test) and not any(
                             isinstance(x, ast.Assign) and unparse(
